@@ -156,7 +156,7 @@ impl std::fmt::Display for DevError {
 }
 impl std::error::Error for DevError {}
 
-#[derive(Clone, Debug, Serialize)]
+#[derive(Clone, Debug, PartialEq, Serialize)]
 pub struct RealCall {
     /// true = entered through write_input_and_read_output by the crate itself
     pub reads: bool,
@@ -494,6 +494,11 @@ pub struct Session<'a, 'b> {
     pub dead: bool,
 }
 
+thread_local! {
+    /// Enter through the deprecated alias `TestCase::run_iter` instead of `try_iter`
+    pub static ENTER_THROUGH_RUN_ITER: std::cell::Cell<bool> = const { std::cell::Cell::new(false) };
+}
+
 pub fn construct<'a, 'b>(
     tc: &'a TestCase,
     drv: &'b mut RecDriver,
@@ -502,7 +507,12 @@ pub fn construct<'a, 'b>(
     let shared = drv.shared.clone();
     verif_hooks::set_seed_override(seed);
     let _ = verif_hooks::take_draw_log();
-    let r = guarded(|| tc.try_iter(drv));
+    #[allow(deprecated)]
+    let r = if ENTER_THROUGH_RUN_ITER.with(|c| c.get()) {
+        guarded(|| tc.run_iter(drv))
+    } else {
+        guarded(|| tc.try_iter(drv))
+    };
     verif_hooks::set_seed_override(None);
     let draws = conv_draws(verif_hooks::take_draw_log());
     match r {
@@ -630,8 +640,120 @@ pub fn run_bound(
     (c, ccalls, cdraws, steps, calls)
 }
 
+/// How a caller consumes the iterator other than by plain `next()`.
+#[derive(Clone, Debug, Serialize)]
+pub enum Consume {
+    /// `nth(k)` with k taken cyclically from the schedule
+    Nth(Vec<usize>),
+    /// `by_ref().skip(k).next()`
+    Skip(Vec<usize>),
+    /// `by_ref().step_by(s)` to the end
+    StepBy(usize),
+    /// m plain `next()`s, then `by_ref().count()`
+    Count(usize),
+    /// m plain `next()`s, then `by_ref().last()`
+    Last(usize),
+}
+
+pub struct Consumed {
+    /// (index of the item in the plain `next()` stream, item); `End` is recorded once
+    pub items: Vec<(usize, RealItem)>,
+    /// (index at which counting started, result of `count()`)
+    pub count: Option<(usize, usize)>,
+    /// (index after which `last()` was called, its result)
+    pub last: Option<(usize, Option<RealItem>)>,
+    pub calls: Vec<RealCall>,
+    pub panic: Option<PanicInfo>,
+}
+
+/// Run an already bound test against a fresh scripted device, consuming the iterator through
+/// the std adaptors a caller may use instead of `next()`.
+pub fn run_bound_consume(
+    tc: &TestCase,
+    sigs: &[Sig],
+    script: &Script,
+    seed: Option<u64>,
+    how: &Consume,
+    cap: usize,
+) -> Option<Consumed> {
+    let mut drv = RecDriver::new(sigs, script);
+    let shared = drv.shared.clone();
+    let (c, sess, _) = construct(tc, &mut drv, seed);
+    if !matches!(c, Construct::Ok) {
+        return None;
+    }
+    let mut s = sess?;
+    let mut out = Consumed { items: vec![], count: None, last: None, calls: vec![], panic: None };
+    let conv = |r: Option<Result<digital_test_runner::DataRow<'_>, IterationError<DevError>>>| match r {
+        None => RealItem::End,
+        Some(Ok(row)) => RealItem::Row(conv_row(tc, &row)),
+        Some(Err(IterationError::Driver(e))) => RealItem::ErrDriver { nonce: e.nonce, call: e.call },
+        Some(Err(e @ IterationError::Runtime(_))) => RealItem::ErrRuntime(err_chain(&e)),
+    };
+    let it = &mut s.it;
+    let res = guarded(|| {
+        let mut idx = 0usize;
+        match how {
+            Consume::Nth(sch) | Consume::Skip(sch) => {
+                let mut j = 0;
+                while out.items.len() < cap {
+                    let k = sch[j % sch.len()];
+                    j += 1;
+                    let item = if matches!(how, Consume::Nth(_)) {
+                        conv(it.nth(k))
+                    } else {
+                        conv(it.by_ref().skip(k).next())
+                    };
+                    idx += k;
+                    let end = item == RealItem::End;
+                    out.items.push((idx, item));
+                    idx += 1;
+                    if end {
+                        break;
+                    }
+                }
+            }
+            Consume::StepBy(step) => {
+                let mut n = 0;
+                for r in it.by_ref().step_by(*step).take(cap) {
+                    out.items.push((n * step, conv(Some(r))));
+                    n += 1;
+                }
+            }
+            Consume::Count(m) | Consume::Last(m) => {
+                let mut ended = false;
+                for _ in 0..*m {
+                    let item = conv(it.next());
+                    ended = item == RealItem::End;
+                    out.items.push((idx, item));
+                    if ended {
+                        break;
+                    }
+                    idx += 1;
+                }
+                if !ended {
+                    if matches!(how, Consume::Count(_)) {
+                        out.count = Some((idx, it.by_ref().count()));
+                    } else {
+                        let l = it.by_ref().last();
+                        out.last = Some((idx, l.map(|r| conv(Some(r)))));
+                    }
+                }
+            }
+        }
+    });
+    if let Err(p) = res {
+        out.panic = Some(p);
+    }
+    out.calls = shared.borrow().calls.clone();
+    Some(out)
+}
+
 /// Full pipeline from text.
 pub fn run_text(text: &str, sigs: &[Sig], script: &Script, opts: &RunOpts) -> RealTrace {
+    if std::env::var_os("DTR_TRACE_TEXT").is_some() {
+        eprintln!("--- run_text ---\n{text}\n--- signals: {:?}", sigs.iter().map(|s| &s.name).collect::<Vec<_>>());
+    }
     let mut tr = RealTrace {
         parse: Stage::NotReached,
         bind: Stage::NotReached,
